@@ -251,7 +251,8 @@ def expect_invalid(run, what, fn, **data):
 
 def invalid_dicts(rng, n_random):
     """(dict, why) for missing keys and duplicates (TRUNCATION duplicates included)."""
-    out = []
+    out = [({}, 'empty set'), ({'FIELD': '|'}, 'only FIELD'), ({'SEGMENT': '\r', 'GROUP': '\r'}, 'no delimiter at all'),
+           ({'FIELD': '|', 'COMPONENT': '^', 'REPETITION': '~'}, 'missing ESCAPE and SUBCOMPONENT')]
     bases = [DEFAULT5, DEFAULT6] + [random_ec(rng, i % 2 == 0) for i in range(n_random)]
     for ec in bases:
         d = ec_dict(ec)
@@ -466,6 +467,24 @@ def main(argv=None):
                 data['assigned'] = assigned
                 er7 = check_message(run, m, ec, v, lvl, 'api', data)
                 stats['descendants_read'] += data.get('_descendants', 0)
+                if lvl == TOLERANT and v >= '2.3':
+                    # values written through TWO OR MORE levels that do not exist yet are split with the message's own set
+                    from hl7apy.core import Message as _M
+                    try:
+                        md = _M('ADT_A01', version=v, encoding_chars=ec_dict(ec))
+                        md.pid.pid_3.cx_4 = 'H' + s + 'u' + s + 'I'
+                        md.pid.pid_5 = 'A' + c + 'B'
+                        md.nk1.nk1_2.xpn_1 = 'K'
+                        got = [l for l in md.to_er7().split('\r') if l.startswith('PID') or l.startswith('NK1')]
+                        want = ['PID' + f * 3 + c * 3 + 'H' + s + 'u' + s + 'I' + f * 2 + 'A' + c + 'B', 'NK1' + f * 2 + 'K']
+                        stats['deep_traversal'] = stats.get('deep_traversal', 0) + 1
+                        if got != want:
+                            run.fail('traversal-value-split-with-other-set', 'a value assigned through levels that do not exist yet is '
+                                     'not split with the message\'s own encoding characters', version=v, ec=ec, level=lvl,
+                                     route='api-deep', got=got, expected=want)
+                    except Exception as ex:  # noqa
+                        run.fail('construction-raises', 'building a message with a valid set raised', version=v, ec=ec, level=lvl,
+                                 exc=repr(ex), content='deep traversal')
                 if lvl == TOLERANT:
                     stats['api_tolerant'] += 1
                 else:
